@@ -588,8 +588,8 @@ let fam_c11 tier r =
             sc_ops = [ new_ (); (if fork then start ~opts:{ default_options with o_fork = true } ~script:[ a_sleep 10; a_exit 0 ] None else start (c 0));
                        pid (); wait 100; destroy () ] })
         [ false; true ])
-      [ (16384, [ (16383, false) ]); (16384, [ (9000, false) ]); (16384, [ (5, false); (6000, false) ]); (16384, [ (16382, true); (16383, false) ]);
-        (65536, [ (40000, false); (65535, false) ]) ] in
+      ([ (16384, [ (16383, false) ]); (16384, [ (9000, false) ]); (16384, [ (5, false); (6000, false) ]); (16384, [ (16382, true); (16383, false) ]) ]
+       @ (if tier = "quick" then [] else [ (65536, [ (40000, false); (65535, false) ]) ])) in
   [ { name = "C11/random-descriptor-tables"; exhaustive = false; scs = List.init n one };
     { name = "C11/descriptors-behind-long-gaps"; exhaustive = true; scs = gaps };
     { name = "C11/caller-handles-and-fork-mode"; exhaustive = true; scs = user };
